@@ -111,7 +111,9 @@ def build_consistent(r, case, depth=3, nfiles=None, allow_multi=True, dups=True,
     # extras: DIST, TIMESTAMP, IGNORE of directories / look-alikes / absent paths
     for d in list(manifests):
         if r.random() < 0.3:
-            manifests[d][1].append('DIST dist-%d.tar.gz 5 SHA1 %s' % (r.randint(0, 3), hashlib.sha1(b'hello').hexdigest()))
+            dn = r.randint(0, 3)
+            # (DIST entries are never verified by gemato: they may carry hash names it does not know, which an update has to keep)
+            manifests[d][1].append('DIST dist-%d.tar.gz 5 %sSHA1 %s%s' % (dn, 'BLAKE3 0123abcd ' if dn % 2 else '', hashlib.sha1(b'hello').hexdigest(), ' XXH128 77' if dn % 2 else ''))
         if r.random() < 0.2:
             manifests[d][1].append('IGNORE ' + r.choice(['absent', 'foo', 'sub', 'fo', 'foo.', 'sub/x', 'x\\x20y', 'dir/']))
     if r.random() < 0.3:
